@@ -14,6 +14,7 @@ package c20
 
 import (
 	"bytes"
+	"context"
 	"encoding/json"
 	"fmt"
 	"os"
@@ -22,6 +23,7 @@ import (
 	"strings"
 	"time"
 
+	"github.com/compose-spec/compose-go/v2/loader"
 	"github.com/compose-spec/compose-go/v2/types"
 	"gopkg.in/yaml.v3"
 
@@ -49,6 +51,7 @@ type leakArgs struct {
 	SkipValidation bool                       `json:"skip_validation,omitempty"`
 	SkipConsistency bool                      `json:"skip_consistency,omitempty"`
 	Malformed      bool                       `json:"malformed,omitempty"`
+	Opts           *loadOpts                  `json:"opts,omitempty"` // round 6: loader options that change what later stages see
 }
 
 type leakFail struct {
@@ -218,6 +221,18 @@ func renderAll(p *types.Project, direct bool) ([]rendering, error) {
 			out = append(out, rendering{name: n, content: content, bytes: b})
 		}
 	}
+	// history: a plain rendering made after the ones with content requested must be as clean as the first
+	for _, asJSON := range []bool{false, true} {
+		b, err := renderProject(p, asJSON, false)
+		if err != nil {
+			return nil, fmt.Errorf("marshal: %w", err)
+		}
+		n := "yaml-after-content"
+		if asJSON {
+			n = "json-after-content"
+		}
+		out = append(out, rendering{name: n, bytes: b})
+	}
 	if direct {
 		if b, err := yaml.Marshal(p); err == nil {
 			out = append(out, rendering{name: "yaml-direct", bytes: b})
@@ -268,9 +283,34 @@ func realLeak(raw json.RawMessage) any {
 	}
 	req := core.LoadReq{Files: files, ConfigFiles: a.ConfigFiles, Env: a.Env, ProjectName: a.PName,
 		SkipValidation: a.SkipValidation, SkipConsistencyCheck: a.SkipConsistency}
-	p, root, err := req.Load()
+	root, err := core.Materialize(req.Files)
 	defer os.RemoveAll(root)
 	if err != nil {
+		return map[string]any{"bad": "materialize: " + err.Error()}
+	}
+	p, err := loader.LoadWithContext(context.Background(), req.Details(root), func(o *loader.Options) {
+		o.SkipValidation = a.SkipValidation
+		o.SkipConsistencyCheck = a.SkipConsistency
+		o.ResolvePaths = true
+		if a.PName != "" {
+			o.SetProjectName(a.PName, true)
+		}
+		a.Opts.apply(o)
+	})
+	if err != nil {
+		// an error message is a rendering too: the loader must not quote a resolved value in it
+		if !a.Malformed {
+			for v, c := range a.Cores {
+				if strings.Contains(err.Error(), c) {
+					return map[string]any{"ok": map[string]any{"fails": []leakFail{{"leak:error-message", fmt.Sprintf("the load error quotes the value of %q: %s", v, core.ScrubErr(err, root))}}}}
+				}
+			}
+			for v, c := range a.IncCores {
+				if strings.Contains(err.Error(), c) {
+					return map[string]any{"ok": map[string]any{"fails": []leakFail{{"leak:error-message", fmt.Sprintf("the load error quotes the value of %q (include env file): %s", v, core.ScrubErr(err, root))}}}}
+				}
+			}
+		}
 		return map[string]any{"err": "rejected", "class": classifyLoadErr(err.Error()), "text": core.ScrubErr(err, root)}
 	}
 	var fails []leakFail
@@ -427,7 +467,7 @@ func realLeak(raw json.RawMessage) any {
 				}
 				continue
 			}
-			if label != "" || a.Malformed || strings.HasSuffix(r.name, "-direct") {
+			if label != "" || a.Malformed || strings.HasSuffix(r.name, "-direct") || strings.HasSuffix(r.name, "-after-content") {
 				continue
 			}
 			// exactness of requested content; source of environment configs
